@@ -330,7 +330,7 @@ def total_on_domain(ctx, R="R-C19/total"):
                     continue
                 feasible = sub is not None and (not isinstance(sub, list) or bool(sub))
                 ctx.check(not feasible, R, f, node, "%s.%s raises for no value of its domain %s" % (c.name, meth, dom),
-                          "%s.%s raises when %s, which holds on %s inside the domain %s: the round trip fails there" % (c.name, meth, S.show(g2)[:80], sub, dom))
+                          "%s.%s raises when %s, which holds on %s inside the domain %s: the round trip fails there" % (c.name, meth, S.show(g2)[:80], sub, dom), robust=True)
             if not ev.raises:
                 ctx.ok(R, f.loc(), "%s.%s raises for no value of its domain" % (c.name, meth))
 
@@ -372,6 +372,6 @@ def piecewise_dtype(ctx, R="R-C19/piecewise-dtype"):
                     return False
                 ctx.check(all(floating(e) for e in exprs), R, f, call, "the value handed to numpy.piecewise is floating (the result takes its dtype)",
                           "%s.%s passes %s to numpy.piecewise; for an integer argument every piece is truncated to an integer, so the map is neither the "
-                          "published formula nor invertible there" % (c.name, meth, astq.text(exprs[0])[:50]))
+                          "published formula nor invertible there" % (c.name, meth, astq.text(exprs[0])[:50]), robust=True)
     if not n:
         ctx.ok(R, "src/pydrobert/speech/scales.py", "no numpy.piecewise in the scale maps (scalar formulas keep Python float arithmetic)")
